@@ -36,22 +36,30 @@ def position(p, e):
         raise Unhandled(f'position symbol {s} is not a scanner result')
     if e.c == 0:
         return m
+    vm = getattr(p, 'virtual_offsets', {}).get((m, e.c))
+    if vm is not None:
+        return vm
     mm = OFFSET_MARKERS.get((m, e.c))
     if mm is None:
         raise Unhandled(f'position {m}{e.c:+d} has no specification marker')
     return mm
 
 
-def pieces_of(p, splice):
+def pieces_of(p, splice, xnames=('x',)):
     """content of the splice as a list of ('lit', bytes) | ('x',)"""
     (b, s, e, n, content, line) = splice
     if content is not None:
         if content[0] == 'lit':
             return [('lit', content[1])] if content[1] else []
-        if content[0] in ('bytes', 'arg') and content[1] == 'x':
+        if content[0] in ('bytes', 'arg') and content[1] in xnames:
             return [('x',)]
         raise Unhandled(f'splice content {content[0]}:{content[1] if len(content) > 1 else ""}')
     ws = sorted([w for w in p.writes if w[0] == b], key=lambda w: (w[1] - s).c if (w[1] - s).is_const() else 10 ** 6)
+    from .symex import entails
+
+    def same(a_, b_):
+        d = a_ - b_
+        return d == Aff() or (entails(p.facts, d) and entails(p.facts, -d))
     out = []
     pos = s
     remaining = list(p.writes)
@@ -60,10 +68,11 @@ def pieces_of(p, splice):
     while remaining and progress:
         progress = False
         for w in remaining:
-            if (w[1] - pos) == Aff():
+            if same(w[1], pos):
                 if w[3][0] == 'lit':
-                    out.append(('lit', w[3][1]))
-                elif w[3][0] in ('bytes', 'arg') and w[3][1] == 'x':
+                    if w[3][1]:
+                        out.append(('lit', w[3][1]))
+                elif w[3][0] in ('bytes', 'arg') and w[3][1] in xnames:
                     out.append(('x',))
                 else:
                     raise Unhandled('written content ' + str(w[3])[:40])
@@ -71,7 +80,7 @@ def pieces_of(p, splice):
                 remaining.remove(w)
                 progress = True
                 break
-    if remaining or not ((pos - (s + n)) == Aff()):
+    if remaining or not same(pos, s + n):
         raise Unhandled('allocated hole is not exactly tiled by the writes')
     return out
 
@@ -144,11 +153,72 @@ class Builder:
         a, z = n.new(), n.new()
         self._any_loop(n, a, ML)
         self._any_loop(n, z, ML)
+        before = n.n
         s, fs = embed(n, R)
         v1, v2 = 256 + ML.index(mlo), 256 + ML.index(mhi)
+        # zero-width markers (other components' and virtual ones) may occur inside the span
+        for st_ in range(before, n.n):
+            for i in range(len(ML)):
+                if 256 + i not in (v1, v2):
+                    n.add(st_, 256 + i, 256 + i, st_)
         n.add(a, v1, v1, s)
         for f in fs:
             n.add(f, v2, v2, z)
+        return self._det(n, a, [z], ML)
+
+    def _with_virtual(self, M, nbase, nall):
+        """add the virtual marker letters as self-loops on every state (a virtual marker may sit anywhere; constraints pin it)"""
+        n = NFA()
+        base = [n.new() for _ in range(M.n)]
+        for s_ in range(M.n):
+            for c, t in M.trans[s_].items():
+                n.add(base[s_], M.alpha.starts[c], M.alpha.ends[c], base[t])
+            for v in range(nbase, nall):
+                n.add(base[s_], 256 + v, 256 + v, base[s_])
+        pts = {256} | {256 + i for i in range(nall + 1)}
+        return determinize(n, base[M.start], [base[f] for f in M.finals], 255 + nall, False, pts)
+
+    def c_virtual(self, ML, v, before, after, once_in=('p+', 'p-'), anchor_start=False, anchor_end=False):
+        """exactly one V, located inside the path span, with `before` the byte pattern required immediately before V
+        (list of byte sets, nearest last) and `after` the pattern required immediately after V; other markers may interleave"""
+        n = NFA()
+        V = 256 + ML.index(v)
+        others = [256 + i for i, m in enumerate(ML) if m != v]
+        lo, hi = 256 + ML.index(once_in[0]), 256 + ML.index(once_in[1])
+
+        def loop(s_, with_bytes=True, allow=None):
+            if with_bytes:
+                n.add(s_, 0, 255, s_)
+            for o in others:
+                if allow is None or o in allow:
+                    n.add(s_, o, o, s_)
+        a = n.new()
+        loop(a, allow=[o for o in others if o not in (hi,)])       # anything before; p+ occurs somewhere in here
+        # to keep it simple the "inside the path" requirement is: p+ before V and p- after V
+        seen_lo = n.new()
+        n.add(a, lo, lo, seen_lo)
+        loop(seen_lo, with_bytes=not anchor_start, allow=[o for o in others if o not in (lo, hi)])
+        # required bytes right before V
+        cur = seen_lo
+        for bs in before:
+            nx = n.new()
+            for (x, y) in bs:
+                n.add(cur, x, y, nx)
+            loop(nx, with_bytes=False, allow=[o for o in others if o not in (lo, hi)])
+            cur = nx
+        afterV = n.new()
+        n.add(cur, V, V, afterV)
+        cur = afterV
+        for bs in after:
+            loop(cur, with_bytes=False, allow=[o for o in others if o not in (lo, hi)])
+            nx = n.new()
+            for (x, y) in bs:
+                n.add(cur, x, y, nx)
+            cur = nx
+        loop(cur, with_bytes=not anchor_end, allow=[o for o in others if o not in (lo, hi)])
+        z = n.new()
+        n.add(cur, hi, hi, z)
+        loop(z, allow=[o for o in others if o not in (lo,)])
         return self._det(n, a, [z], ML)
 
     def _det(self, n, start, finals, ML):
@@ -190,8 +260,30 @@ class Builder:
             elif k == 'cmp' and atom[1] in ('Eq', 'Ne') and isinstance(atom[3], Aff) and atom[3] == Aff():
                 m = position(p, atom[2])
                 cons.append((self.c_at0(ML, m), pol if atom[1] == 'Eq' else not pol))
+            elif k == 'p_in':
+                cons.append((self.c_infix(ML, 'p+', 'p-', lang.predicate_dfa(atom[1], False)), pol))
+            elif k == 'p_ends':
+                name = {b'/./': 'ends-with-dot-slash'}.get(atom[1])
+                if name is None:
+                    raise Unhandled(f'path suffix test {atom[1]!r}')
+                cons.append((self.c_infix(ML, 'p+', 'p-', lang.predicate_dfa(name, False)), pol))
+            elif k == 'cmp' and atom[1] == 'Gt' and isinstance(atom[3], Aff) and atom[3] == Aff({}, 3) and repr(atom[2]) == 'pend -pstart':
+                cons.append((self.c_infix(ML, 'p+', 'p-', lang.predicate_dfa('longer-than-3', False)), pol))
+            elif k == 'cmp' and atom[1] == 'Gt' and repr(atom[2]) == 'pstart' and isinstance(atom[3], Aff) and atom[3] == Aff():
+                cons.append((self.c_at0(ML, 'p+'), not pol))
+            elif k == 'cmp' and atom[1] in ('Eq', 'Ne') and {repr(atom[2]), repr(atom[3])} == {'pstart', 'pend'}:
+                cons.append((self.c_infix(ML, 'p+', 'p-', lang.predicate_dfa('is-empty', False)), pol if atom[1] == 'Eq' else not pol))
+            elif k in ('opaque', 'byte_at'):
+                continue        # no constraint (over-approximation) / expressed by the virtual cut marker
+            elif k == 'cmp' and any('loop_' in str(x) for x in (atom[2], atom[3])):
+                continue        # loop exit test: expressed by the virtual cut marker
             elif k == 'nonneg':
-                position(p, atom[1])      # must denote a specification position (then it is >= 0)
+                try:
+                    position(p, atom[1])      # a specification position is >= 0
+                except Unhandled:
+                    if not any(sy.startswith(('pstart', 'pend', 'loop_', 'len(')) for sy in atom[1].t):
+                        raise
+                    # handle arithmetic: discharged by the window analysis (D1)
             elif isinstance(k, str) and k.startswith('common::parse::'):
                 continue
             else:
@@ -210,27 +302,42 @@ class Builder:
                 ms.add(atom[1] + '+')
             elif atom[0] in ('lls', 'fsc') and atom[1] == ('comp', 'p'):
                 ms |= {'p+', 'p-'}
+            elif atom[0] in ('p_in', 'p_ends') or (atom[0] == 'cmp' and (repr(atom[2]) in ('pend -pstart', 'pstart', 'pend'))):
+                ms |= {'p+', 'p-'}
             elif atom[0] == 'w_starts':
                 m = position(p, atom[1])
                 if m not in ('BEGIN', 'END'):
                     ms.add(m)
-            elif atom[0] == 'cmp' and isinstance(atom[2], Aff):
+            elif atom[0] == 'cmp' and isinstance(atom[2], Aff) and isinstance(atom[3], Aff) and atom[3] == Aff() and atom[1] in ('Eq', 'Ne'):
                 m = position(p, atom[2])
                 if m not in ('BEGIN', 'END'):
                     ms.add(m)
-        return [m for m in ALL_MARKERS if m in ms]
+        return [m for m in ALL_MARKERS if m in ms] + sorted(m for m in ms if m not in ALL_MARKERS)
 
     # ------------------------------------------------------------------ the result language
-    def result_language(self, p, guards, cutL, cutR, pieces, keep=(), emit_before=None, emit_after=None):
+    def result_language(self, p, guards, cutL, cutR, pieces, keep=(), emit_before=None, emit_after=None, virtual=None, inside=False, xlang=None):
         """DFA over bytes (+ kept marker letters) of the texts the path can produce.
         keep: markers of the ORIGINAL decomposition copied into the result (frame check);
         emit_before / emit_after: {piece index: [markers]} emitted before / after that piece (read-back check);
         index len(pieces) in emit_before = after the last piece (used when there are no pieces)."""
         emit_before = emit_before or {}
         emit_after = emit_after or {}
-        ML = self.markers_needed(p, guards, cutL, cutR, extra=keep)
-        M = specmod.marked_dfa(self.rfc, self.prod, ML, ())
-        cons, X = self.guard_automata(p, ML, guards)
+        virtual = virtual or {}
+        base = self.markers_needed(p, guards, cutL, cutR, extra=list(keep) + [m for m in ('p+', 'p-') if virtual])
+        base = [m for m in base if m not in virtual]
+        ML = base + sorted(virtual)
+        M = specmod.marked_dfa(self.rfc, self.prod, base, ())
+        if virtual:
+            M = self._with_virtual(M, len(base), len(ML))
+        saved_x = self.x_bytes
+        if xlang is not None:
+            self.x_bytes = xlang
+        try:
+            cons, X = self.guard_automata(p, ML, guards)
+        finally:
+            self.x_bytes = saved_x
+        for vname, mk in virtual.items():
+            cons.append((mk(self, ML), True))
         A = M
         for d, pol in cons:
             A = intersect(A, d) if pol else difference(A, d)
@@ -276,8 +383,8 @@ class Builder:
                     if m is None:
                         n.add(a, al.starts[c], min(al.ends[c], 255), st(('u', t)))
                     elif m == cutL and cutL == cutR:
-                        # pure insertion at marker m: outside the component the marker belongs to
-                        if m.endswith('+'):
+                        # pure insertion at marker m: outside the component the marker belongs to (inside it when `inside`)
+                        if m.endswith('+') != inside:
                             n.add_eps(a, st(('pc', 0, None, ('before', q))))
                         else:
                             tgt = st(('pc', 0, None, t))
